@@ -50,7 +50,10 @@ class BlobExchangeClientProtocol(asyncio.Protocol):
         if not self._response_fut:
             log.warning("Protocol received data before expected, probable race on keep alive. Closing transport.")
             return self.close()
-        if self._blob_bytes_received and not self.writer.closed():
+        if self.writer and not self.writer.closed() and \
+                (self._blob_bytes_received or (self._response_fut.done() and self.blob.get_length())):
+            # the response to our request has been parsed: everything that follows is blob data, even when the
+            # first body fragment happens to look like a protocol message
             return self._write(data)
 
         response = BlobResponse.deserialize(self.buf + data)
